@@ -34,6 +34,12 @@ class InfraError(Exception):
     """The machinery itself could not run (exit status 2)."""
 
 
+class CorrespondenceBroken(Exception):
+    """The implementation no longer has the structure the model is tied to (e.g. the optimisation problem it builds has other variables than
+    the modelled program): the correspondence no longer checks.  Not a verdict by itself: the run goes on looking for a failing input, and
+    reports a VIOLATION ending in no-failing-input-found when none is found."""
+
+
 # ------------------------------------------------------------------------------------------------
 # Lean driver
 
@@ -154,6 +160,7 @@ class Ctx:
         self.hist = {}
         self.violations = []  # (what, replay path)
         self.known_hit = {}  # finding id -> count
+        self.broken = []  # correspondence breaks (CorrespondenceBroken) seen during the run
         self.known = [r for r in load_known(pid) if r.get("kind") == "finding"]
         self.matchers = {}
         self.notes = []
